@@ -128,7 +128,6 @@ inductive Err where
   | differentDirs              -- RuntimeError          (before any container starts)
   | docker                     -- DockerException       (logged, re-raised)
   | containerOther             -- any other exception of the container machinery
-  | decode                     -- UnicodeDecodeError    (`stream_content.decode()`)
   | resultMissing              -- FileNotFoundError     (`shutil.copy` source)
   | outDirMissing              -- FileNotFoundError     (`shutil.copy` destination)
 deriving DecidableEq, Repr
@@ -250,60 +249,21 @@ def plan (a : DatasetArgs) (q : QueryFacts) (fs : FsFacts) : Except Err DockerCa
 
 /-! ## the streaming run (`ran`) -/
 
-def inR (lo hi b : Nat) : Bool := lo ≤ b && b ≤ hi
-def cont (b : Nat) : Bool := inR 0x80 0xBF b
-
-/-- Python's strict UTF-8 decoder accepts exactly these byte sequences (no overlong forms, no
-surrogates, nothing above U+10FFFF). -/
-def utf8Valid : List Nat → Bool
-  | [] => true
-  | b :: rest =>
-    if b < 0x80 then utf8Valid rest
-    else if inR 0xC2 0xDF b then
-      match rest with
-      | c1 :: r => cont c1 && utf8Valid r
-      | _ => false
-    else if inR 0xE0 0xEF b then
-      match rest with
-      | c1 :: c2 :: r =>
-        (if b = 0xE0 then inR 0xA0 0xBF c1 else if b = 0xED then inR 0x80 0x9F c1 else cont c1)
-          && cont c2 && utf8Valid r
-      | _ => false
-    else if inR 0xF0 0xF4 b then
-      match rest with
-      | c1 :: c2 :: c3 :: r =>
-        (if b = 0xF0 then inR 0x90 0xBF c1 else if b = 0xF4 then inR 0x80 0x8F c1 else cont c1)
-          && cont c2 && cont c3 && utf8Valid r
-      | _ => false
-    else false
-
-def Chunk.decodes (c : Chunk) : Bool := utf8Valid c.bytes
-
-/-- `for stream_type, stream_content in output_generator: … .decode()`: how many chunks are taken
-from the stream and whether all of them decoded. -/
-def consume : List Chunk → Nat × Bool
-  | [] => (0, true)
-  | c :: cs =>
-    if c.decodes then
-      let (n, ok) := consume cs
-      (n + 1, ok)
-    else (1, false)
-
 def endingErr : Ending → Option Err
   | .success => none
   | .dockerError => some .docker
   | .otherError => some .containerOther
 
-/-- The `try:` block around `docker.run` and the loop over its stream. -/
+/-- The `try:` block around `docker.run` and the loop over its stream. Every chunk is decoded with
+`errors='replace'`, which cannot fail: the content of the chunks plays no role, only how many
+there are and how the stream ends. Returns the number of chunks taken from the stream. -/
 def runContainer (o : Outcome) : Nat × Except Err Unit :=
   match (if o.atCall then endingErr o.ending else none) with
   | some e => (0, .error e)
   | none =>
-    let (n, ok) := consume o.chunks
-    if !ok then (n, .error .decode)
-    else match endingErr o.ending with
-      | some e => (n, .error e)
-      | none => (n, .ok ())
+    match endingErr o.ending with
+    | some e => (o.chunks.length, .error e)
+    | none => (o.chunks.length, .ok ())
 
 /-! ## result extraction (`delivered`) -/
 
